@@ -530,6 +530,17 @@ func runC19(c *fw.Ctx) {
 			same("after Reverse", holderL.Reverse().Get(1))
 			same("SubList", holderL.SubList(0, 0).Get(1))
 			same("Concat", holderL.Concat(at.NewList()).Get(1))
+			// the derived value stored OVER a plain container with equal content (Set / Replace / SetTF overwrite)
+			var plainEq, plainEq2, plainEq3 any
+			if storedIsList {
+				plainEq, plainEq2, plainEq3 = fx.outer.(at.List).Clone(), fx.outer.(at.List).Clone(), fx.outer.(at.List).Clone()
+			} else {
+				plainEq, plainEq2, plainEq3 = fx.outer.(at.Object).Clone(), fx.outer.(at.Object).Clone(), fx.outer.(at.Object).Clone()
+			}
+			same("Set over an equal plain container", at.NewObject("d", plainEq).Set("d", fx.outer).Get("d"))
+			same("Replace over an equal plain container", at.NewList(plainEq2).Replace(0, fx.outer).Get(0))
+			same("SetTF over an equal plain container", at.NewObject("d", plainEq3).SetTF(".d", fx.outer).Get("d"))
+			same("list SetTF over an equal plain container", at.NewList(0, plainEq).SetTF("#1", fx.outer).Get(1))
 			// somebody stores a handle to an inner embedding level (legal: it is a List / Object value); the outer
 			// registration must survive that
 			inners := append([]any{fx.inner}, fx.mids...)
